@@ -1358,14 +1358,9 @@ func (se *SessionExecutor) handleShow(reqCtx *util.RequestContext, sql string) (
 			return createShowDatabaseResult(dbs), nil
 		}
 	}
-	// readonly && readwrite user send to slave
-	if !se.GetNamespace().IsAllowWrite(se.user) || se.GetNamespace().IsRWSplit(se.user) {
-		reqCtx.SetFromSlave(true)
-	}
-	// handle show variables like '%read_only%' default to master
-	if strings.Contains(sql, readonlyVariable) && se.GetNamespace().IsAllowWrite(se.user) {
-		reqCtx.SetFromSlave(false)
-	}
+	// readonly && readwrite user send to slave; show variables like '%read_only%'
+	// (in any letter case) and statements with a master hint go to the master
+	reqCtx.SetFromSlave(checkExecuteFromSlave(reqCtx, se, sql))
 	r, err := se.ExecuteSQL(reqCtx, se.GetNamespace().GetDefaultSlice(), se.db, sql)
 	if err != nil {
 		return nil, fmt.Errorf("execute sql error, sql: %s, err: %v", sql, err)
